@@ -354,4 +354,81 @@ theorem xDBLMUL_bounded_eq (NW BITS TPE : Nat) (hW : 64 * NW = BITS) (hB : 0 < B
   rw [m0, m1, m2]
   cases hbk : k.testBit 0 <;> cases hbl : l.testBit 0 <;> simp [dblmulOut, mask]
 
+/-! ## DBLMUL / DBLMUL_generic -/
+
+theorem bit_toNat_eq_one (b : Bool) : decide (b.toNat = 1) = b := by cases b <;> rfl
+
+theorem DBLMUL_loop1_step (P Q PQ : JacPoint F) (curve : EcCurve F) (k l : Nat) (R : JacPoint F) (i : Nat) :
+    SqiGen.DBLMUL_loop1 P Q curve k l PQ R i = jacDblmulStep P Q PQ curve R (k.testBit (63 - i), l.testBit (63 - i)) := by
+  simp only [SqiGen.DBLMUL_loop1, jacDblmulStep, Nat.testBit_div_two_pow, Nat.add_zero, bit_toNat_eq_one]
+  cases hk : k.testBit (63 - i) <;> cases hl : l.testBit (63 - i) <;> simp [hk, hl]
+
+theorem rev64 : (List.range 64).map (fun i => 63 - i) = (List.range 64).reverse := by decide
+
+theorem zip_map_map {α β γ : Type} (l : List α) (f : α → β) (g : α → γ) :
+    (l.map f).zip (l.map g) = l.map (fun x => (f x, g x)) := by
+  induction l with
+  | nil => rfl
+  | cons a l ih => simp [ih]
+
+theorem zip_bitsMSB (n k l : Nat) :
+    (bitsMSB n k).zip (bitsMSB n l) = (List.range n).reverse.map (fun j => (k.testBit j, l.testBit j)) := by
+  simp only [bitsMSB, zip_map_map]
+
+theorem DBLMUL_eq (P : JacPoint F) (k : Nat) (Q : JacPoint F) (l : Nat) (curve : EcCurve F) :
+    SqiGen.DBLMUL P k Q l curve = jacDBLMUL 64 k l P Q curve := by
+  simp only [SqiGen.DBLMUL, jacDBLMUL, zip_bitsMSB, ← rev64, List.map_map, List.foldl_map]
+  congr 1
+  funext R i
+  exact DBLMUL_loop1_step P Q _ curve k l R i
+
+theorem DBLMUL_generic_loop2_step (j : Nat) (P Q PQ : JacPoint F) (curve : EcCurve F) (k l : Nat) (R : JacPoint F)
+    (i : Nat) (hi : i < 64) :
+    SqiGen.DBLMUL_generic_loop2 j P Q curve k l PQ R i =
+      jacDblmulStep P Q PQ curve R (k.testBit (64 * (j - 1) + (63 - i)), l.testBit (64 * (j - 1) + (63 - i))) := by
+  have h63 : 63 - i < 64 := by omega
+  have ew : ∀ x : Nat, ((x / 2 ^ (64 * (j - 1)) % 2 ^ 64) / 2 ^ (63 - i)).testBit 0 = x.testBit (64 * (j - 1) + (63 - i)) := by
+    intro x
+    rw [Nat.testBit_div_two_pow, Nat.zero_add, word_testBit _ _ _ h63]
+  simp only [SqiGen.DBLMUL_generic_loop2, jacDblmulStep, ew, bit_toNat_eq_one]
+
+theorem foldl_congr_mem {α β : Type} (f g : β → α → β) (l : List α) (h : ∀ s, ∀ a ∈ l, f s a = g s a) (s : β) :
+    l.foldl f s = l.foldl g s := by
+  induction l generalizing s with
+  | nil => rfl
+  | cons a l ih =>
+    simp only [List.foldl_cons]
+    rw [h s a (List.mem_cons_self ..)]
+    exact ih (fun s b hb => h s b (List.mem_cons_of_mem _ hb)) _
+
+theorem DBLMUL_generic_inner (j : Nat) (P Q PQ : JacPoint F) (curve : EcCurve F) (k l : Nat) (R : JacPoint F) :
+    (List.range 64).foldl (SqiGen.DBLMUL_generic_loop2 j P Q curve k l PQ) R =
+      ((List.range 64).reverse.map (fun b => (k.testBit (64 * (j - 1) + b), l.testBit (64 * (j - 1) + b)))).foldl
+        (jacDblmulStep P Q PQ curve) R := by
+  rw [← rev64, List.map_map, List.foldl_map]
+  apply foldl_congr_mem
+  intro R' i hi
+  exact DBLMUL_generic_loop2_step j P Q PQ curve k l R' i (List.mem_range.mp hi)
+
+theorem range_reverse_split (n : Nat) :
+    (List.range (64 * (n + 1))).reverse = (List.range 64).reverse.map (fun b => 64 * n + b) ++ (List.range (64 * n)).reverse := by
+  have e : 64 * (n + 1) = 64 * n + 64 := by omega
+  rw [e, List.range_add, List.reverse_append, List.map_reverse]
+
+theorem DBLMUL_generic_eq (P : JacPoint F) (k : Nat) (Q : JacPoint F) (l : Nat) (curve : EcCurve F) (size : Nat) :
+    SqiGen.DBLMUL_generic P k Q l curve size = jacDBLMUL (64 * size) k l P Q curve := by
+  simp only [SqiGen.DBLMUL_generic, jacDBLMUL, zip_bitsMSB]
+  generalize ADD P Q curve = PQ
+  generalize (jac_init : JacPoint F) = R
+  induction size generalizing R with
+  | zero => rfl
+  | succ n ih =>
+    rw [range_reverse_split, List.map_append, List.foldl_append, List.map_map]
+    rw [List.range_succ, List.reverse_append, List.map_append, List.foldl_append]
+    simp only [List.reverse_cons, List.reverse_nil, List.nil_append, List.map_cons, List.map_nil, List.foldl_cons,
+      List.foldl_nil, SqiGen.DBLMUL_generic_loop1]
+    rw [DBLMUL_generic_inner]
+    simp only [Nat.add_sub_cancel]
+    exact ih _
+
 end SqiProofs.LadderGen
